@@ -133,11 +133,6 @@ Proof.
     destruct (gen_call _ _ _ (memo st') _ _ _ _ _) as [[mm' m'] r']. cbn in *. subst r'. rewrite B, H1, Hp1, Hp2. auto.
 Qed.
 
-Fixpoint run_state (clk : positive) (st : sys_state) (evs : list event) : sys_state :=
-  match evs with
-  | [] => st
-  | e :: r => run_state clk (fst (step clk st e)) r
-  end.
 
 (* any interleaved calls by other threads leave thread t's next result unchanged *)
 Theorem per_thread_frame clk n st others e :
